@@ -163,6 +163,19 @@ pub fn run_a(rep: &Report, tier: Tier) {
 
 /// detections of one step of a relative-motion word
 fn frame(word: &[usize], step: usize, family: usize) -> Vec<Det> {
+    if family == 6 {
+        // the approach / cross / separate family in a small unit (normalised image coordinates): boxes 0.002 x 0.004,
+        // overlap areas of a few 1e-6 - IoU is a ratio and has no absolute scale
+        return frame(word, step, 0)
+            .into_iter()
+            .map(|d| {
+                let k = 2e-4f32;
+                let mut n = Det::ltwh((d.bbox.xc - d.bbox.aspect * d.bbox.height / 2.0) * k, (d.bbox.yc - d.bbox.height / 2.0) * k, d.bbox.aspect * d.bbox.height * k, d.bbox.height * k).conf(d.bbox.confidence);
+                n.custom_id = d.custom_id;
+                n
+            })
+            .collect();
+    }
     if family == 4 {
         // low-confidence detections (below a high configured minimum): the clamp decides gate and weight
         let mut gap = 4.0f32;
@@ -255,7 +268,7 @@ pub fn run_b(rep: &Report, tier: Tier) {
     let greedy_differs = AtomicU64::new(0);
     let continued = AtomicU64::new(0);
     for cfg in cfgs {
-        for family in 0..6usize {
+        for family in 0..7usize {
             if rep.out_of_time() {
                 rep.cap_hit("wall budget reached in the end-to-end association part");
                 return;
